@@ -253,7 +253,7 @@ impl PartialEq for SassNumber {
         }
 
         match self.unit.canonical() {
-            Some(canonical) if self.unit != other.unit => {
+            Some(canonical) => {
                 self.num.convert(&self.unit, &canonical)
                     == other.num.convert(&other.unit, &canonical)
             }
